@@ -1853,6 +1853,22 @@ def denom_variants(k, tier):
         g.gm = True
         g.defines = ['AVM_MUL_UF']
         out.append(g)
+    if d['vec'] and t.W > 1 and t.bits == 64 and t.signed and k.family == 'denom_div' and 'mp' in dict(k.S[d['dct']]):
+        g = copy.copy(k)
+        pn, pd = d['pn']
+        g.requires = ['(%s == 0 || %s == 0xffffffffffffffffull)' % (t.lane('(%s).d_sign' % pd, i), t.lane('(%s).d_sign' % pd, i)) for i in range(t.W)] + \
+                     ['%s < 64' % t.lane('(%s).sh' % pd, i) for i in range(t.W)]
+        g.ensures = [('div lane %d evaluates the signed Granlund-Montgomery expression of its lane' % i,
+                      'spec_gm_div_i64_lane_ok(%s, %s, %s, %s, %s, %s, %s)' % (
+                          t.lane('(%s).quot' % RV, i), t.lane('(%s).rem' % RV, i), t.lane(pn, i), t.lane('(%s).mp' % pd, i),
+                          t.lane('(%s).d_sign' % pd, i), t.lane('(%s).sh' % pd, i), t.lane('(%s).d' % pd, i))) for i in range(t.W)]
+        g.harness = {'pre': ['%s a0;' % d['nct'], '%s a1;' % d['dct']], 'args': ['a0', 'a1']}
+        g.extra_roots = []
+        g.part = 'signed GM expression per lane, all n, all field values'
+        g.partial = None
+        g.gm = True
+        g.defines = ['AVM_MUL_UF']
+        out.append(g)
     if d['vec'] and t.W > 1 and t.bits == 32 and t.signed and k.family == 'denom_div':
         # signed twin: every lane of div evaluates the signed Granlund-Montgomery expression of that lane's fields (modulo L4)
         g = copy.copy(k)
